@@ -279,6 +279,36 @@ func c08Intern(c *Ctx, p *Prog) {
 			if prefix && cmpEmpty {
 				trimmed = true
 			}
+			// or the helper holds one of the two trimming loops over its parameter
+			if !trimmed {
+				all, any := true, false
+				for _, b := range h.Blocks {
+					ret, ok := b.Instrs[len(b.Instrs)-1].(*ssa.Return)
+					if !ok {
+						continue
+					}
+					any = true
+					switch x := retVal(ret, 0).(type) {
+					case *ssa.Phi:
+						fromParam := false
+						for _, e := range x.Edges {
+							if e == ssa.Value(h.Params[0]) {
+								fromParam = true
+							}
+						}
+						if !fromParam || !c08ResliceTrim(h, x) {
+							all = false
+						}
+					case *ssa.Slice:
+						if x.X != ssa.Value(h.Params[0]) || !c08CountDownTrim(h, x) {
+							all = false
+						}
+					default:
+						all = false
+					}
+				}
+				trimmed = any && all
+			}
 		}
 	}
 	c.Check(trimmed, R, "intern:trimmed", site, "the row is trimmed of trailing empty values before hashing", "the interned row is not the one with trailing empty values removed: keys from before and after the field set grew differ")
